@@ -11,6 +11,7 @@ import (
 	"github.com/chrislusf/seaweedfs/weed/storage"
 	"github.com/chrislusf/seaweedfs/weed/storage/needle_map"
 	"github.com/chrislusf/seaweedfs/weed/storage/types"
+	"github.com/syndtr/goleveldb/leveldb/opt"
 	"github.com/willf/bloom"
 	"pgregory.net/rapid"
 
@@ -53,7 +54,8 @@ type mapperHarness struct {
 	reloads int
 	delThenReload,
 	dirtyDelete bool
-	fpSeen bool
+	fpSeen  bool
+	tainted bool // the map's current counters descend from a recomputation with a Bloom false positive
 }
 
 func (h *mapperHarness) trace() string {
@@ -73,7 +75,8 @@ func (h *mapperHarness) open(t fataler) {
 	case "memory":
 		h.nm, err = storage.LoadCompactNeedleMap(f)
 	case "leveldb":
-		h.nm, err = storage.NewLevelDbNeedleMap(filepath.Join(h.dir, "1.ldb"), f, nil)
+		// the options Volume.load uses for NeedleMapLevelDb
+		h.nm, err = storage.NewLevelDbNeedleMap(filepath.Join(h.dir, "1.ldb"), f, &opt.Options{BlockCacheCapacity: 2 * 1024 * 1024, WriteBuffer: 1 * 1024 * 1024, CompactionTableSizeMultiplier: 10})
 	}
 	if err != nil {
 		t.Fatalf("open %s needle map: %v\nops: %s", h.kind, err, h.trace())
@@ -214,25 +217,22 @@ func (h *mapperHarness) reload(t fataler) {
 		h.delThenReload = true
 	}
 	after := readCounters(h.nm)
+	// a false positive of the filter makes the recomputed counters approximate; they stay so (the map keeps
+	// counting from them) until a later reload recomputes them without a false positive
 	fp := h.kind == "leveldb" && bloomFalsePositive(h.idx)
 	if fp {
 		h.fpSeen = true
+	}
+	if fp || h.tainted {
 		before.files, before.deleted, before.deletedSz = after.files, after.deleted, after.deletedSz
 	}
+	h.tainted = fp
 	if before != after {
 		t.Fatalf("%s map: counters before close %v, after reloading the same .idx %v\nops: %s", h.kind, before, after, h.trace())
 	}
 	h.sweep(t, "after reload")
 	h.checkInvariants(t, "after reload", fp)
-	// reloading replays the same Set/Delete sequence into a fresh CompactMap
-	h.shadow = needle_map.NewCompactMap()
-	for _, r := range h.idx {
-		if r.size >= 0 {
-			h.shadow.Set(types.NeedleId(r.key), offOf(r.units), types.Size(r.size))
-		} else {
-			h.shadow.Delete(types.NeedleId(r.key))
-		}
-	}
+	// the shadow map stays valid: reloading replays exactly the Set/Delete sequence it has seen
 }
 
 // sortedFileLookups serves the final .idx through the read-only sorted-file map.
@@ -283,7 +283,7 @@ func (h *mapperHarness) pick(t *rapid.T, label string, base uint64) (uint64, str
 }
 
 func TestPropNeedleMapperHistory(t *testing.T) {
-	vlib.Check(t, 320, 12000, func(t *rapid.T) {
+	vlib.Check(t, 320, 5000, func(t *rapid.T) {
 		kind := rapid.SampledFrom([]string{"memory", "memory", "leveldb"}).Draw(t, "kind")
 		h := &mapperHarness{kind: kind, dir: vlib.TempDir(), ref: newRef(), shadow: needle_map.NewCompactMap(), puts: map[uint64]int{}}
 		defer os.RemoveAll(h.dir)
@@ -316,7 +316,7 @@ func TestPropNeedleMapperHistory(t *testing.T) {
 		}
 		nOps := rapid.IntRange(1, 60).Draw(t, "nOps")
 		for i := 0; i < nOps; i++ {
-			switch rapid.SampledFrom([]string{"put", "put", "put", "delete", "delete", "reload", "check"}).Draw(t, "op") {
+			switch rapid.SampledFrom([]string{"put", "put", "put", "put", "delete", "delete", "delete", "reload", "check", "check"}).Draw(t, "op") {
 			case "put":
 				k, kk := h.pick(t, "put", base)
 				if kk == "far" {
@@ -334,12 +334,14 @@ func TestPropNeedleMapperHistory(t *testing.T) {
 					h.del(t, k, u)
 				}
 			case "reload":
-				h.reload(t)
+				if h.reloads < 4 {
+					h.reload(t)
+				}
 			case "check":
-				h.checkInvariants(t, "while running", h.fpSeen)
+				h.checkInvariants(t, "while running", h.tainted)
 			}
 		}
-		h.checkInvariants(t, "at the end", h.fpSeen)
+		h.checkInvariants(t, "at the end", h.tainted)
 		h.reload(t)
 		h.nm.Close()
 		probes := []uint64{0, base + 3001, 1<<64 - 1}
